@@ -427,7 +427,7 @@ class Shim(object):
         pre = sc['prefix']
         if not any(p and self._under(p, pre) for p in paths):
             return
-        if cls != 'M' and name not in ('stat', 'lstat'):
+        if cls != 'M' and name not in ('stat', 'lstat', 'listdir', 'scandir'):
             return
         fd = sc['fd']
         rel = [(p[len(pre):] if p and self._under(p, pre) else '-')
